@@ -133,18 +133,36 @@ func genC05(r *Rand, tier string, i int) *h.Scenario {
 		if sc.Cont.Notifier == 0 {
 			sc.Cont.Notifier = 1
 		}
+	} else if r.Bool(0.1) {
+		// the output dies: the container shuts down, and still knows its bars
+		sc.Faults = []h.Fault{{Site: []int{h.FaultOutWrite, h.FaultOutShort}[r.Intn(2)], K: r.Range(1, 6)}}
+		if sc.Cont.Notifier == 0 {
+			sc.Cont.Notifier = 1
+		}
 	}
 	return sc
 }
 
 func judgeC05(hi *Hist) []*Violation {
-	if hi.Res.Outcome == simrt.Panic || faulted(hi) {
+	// a failing output write ends the container after the cycle has handed its bars back: the
+	// notifier's list is still judged (not the frames); a failing filler or extender loses the cycle's bars
+	outFault := faulted(hi)
+	for _, f := range hi.Sc.Faults {
+		if f.Site != h.FaultOutWrite && f.Site != h.FaultOutShort {
+			outFault = false
+		}
+	}
+	if hi.Res.Outcome == simrt.Panic || (faulted(hi) && !outFault) {
 		return nil
 	}
 	// the frames written before a hang or deadlock are judged like any others; only the rules
 	// that need the end of the run (the notifier) are skipped then
 	partial := hi.Res.Outcome != simrt.OK
 	frames := ParseFrames(hi)
+	if outFault {
+		frames = nil
+		note("c05_notifier_after_write_error")
+	}
 	facts := Facts(hi)
 	var out []*Violation
 	add := func(o, f string, a ...interface{}) {
